@@ -83,6 +83,8 @@ pub fn alphabet(loc: bool, size: u8) -> Vec<E> {
     ];
     if loc {
         v.push(E::Default(1));
+        // an expression that needs the offsets of the unit's entries
+        v.push(E::Default(2));
     }
     v
 }
